@@ -414,6 +414,15 @@ func c06Rebuild(lines []string) *c06Book {
 					c06Safe(func() error { return b.call(o, c06Sheet(i), w) })
 				}
 			}
+		case "duprow":
+			if b != nil && len(w) == 4 {
+				i, _ := strconv.Atoi(w[1])
+				row, _ := strconv.Atoi(w[2])
+				row2, _ := strconv.Atoi(w[3])
+				if i >= 0 && i < b.k {
+					c06Safe(func() error { return b.f.DuplicateRowTo(c06Sheet(i), row, row2) })
+				}
+			}
 		}
 	}
 	return b
@@ -928,6 +937,26 @@ func (g *c06Gen) scenario(idx int) {
 		}
 		b.sync(r)
 		i := rng.Intn(k)
+		if !tables && rng.Chance(18) {
+			d := c06Parse(b.dump(i))
+			if d.n <= 100000 {
+				row := rng.Range(1, d.n+2)
+				row2 := rng.Range(0, d.n+4)
+				if rng.Chance(30) {
+					row2 = row + 1
+				}
+				if rng.Chance(4) {
+					row = rng.Pick2([]int{0, -1})
+				}
+				g.dupRun(b, i, row, row2, false)
+				st, reload, changed := b.duprow(r, fmt.Sprintf("duprow %d %d %d", i, row, row2))
+				if !reload || (st != "ok" && changed) {
+					r.Stat("scenario:ended-by-broken-state")
+					return
+				}
+				continue
+			}
+		}
 		line := g.pickOp(b, i, tables)
 		if rng.Chance(30) {
 			g.oracleAPI(b, line)
@@ -1030,6 +1059,20 @@ func (g *c06Gen) witnesses() {
 	run(1, [][]string{{"setint", "0", "A1", "1"}, {"setint", "0", "C2", "2"}, {"setint", "0", "XFD3", "3"}, {"setint", "0", "B4", "4"}}, "inscols 0 "+hx("A")+" 1 f")
 	run(2, [][]string{{"setf", "0", "A1", hx("S2!C1+1")}, {"setint", "1", "C1", "5"}, {"setint", "1", "XFD2", "3"}}, "inscols 1 "+hx("A")+" 1 f")
 	run(2, [][]string{{"setint", "0", "A1048576", "1"}, {"setint", "0", "A3", "2"}, {"setf", "1", "A1", hx("S1!A5+1")}}, "insrows 0 2 3 f")
+	// DuplicateRowTo in the transcript: merges / DV / CF on the source row, target above, below, beyond, inside a merge
+	{
+		setup := [][]string{{"setint", "0", "A2", "22"}, {"setint", "0", "A4", "44"}, {"setint", "0", "C4", "45"}, {"rowht", "0", "4", "30"},
+			{"merge", "0", "B4", "D4"}, {"merge", "0", "F1", "F3"}, {"dv", "0", hx("A4"), "whole"}, {"cf", "0", hx("A4:C4"), "3"}, {"link", "0", "A4", "loc"}}
+		for _, rr := range [][2]int{{4, 8}, {4, 5}, {4, 6}, {4, 2}, {4, 1}, {2, 4}, {7, 2}, {1, 0}, {0, 3}, {4, 4}} {
+			b := c06New(r, 1)
+			for _, st := range setup {
+				b.api(r, st...)
+			}
+			b.sync(r)
+			b.duprow(r, fmt.Sprintf("duprow 0 %d %d", rr[0], rr[1]))
+			b.f.Close()
+		}
+	}
 	// hyperlink at the limit
 	run(1, [][]string{{"link", "0", "A1048576", "ext"}, {"setint", "0", "A2", "1"}}, "insrows 0 1 1 f")
 }
@@ -1117,6 +1160,10 @@ func c06Replay(r *Run, path string) {
 		case "insrows", "rmrow", "inscols", "rmcol":
 			if b != nil {
 				b.structural(r, line)
+			}
+		case "duprow":
+			if b != nil {
+				b.duprow(r, line)
 			}
 		}
 	}
